@@ -61,6 +61,8 @@ pub fn universe(full: bool) -> Vec<Arg> {
     u.push(comp("ConstFelt5", "Const", &[], &[&felt], &["5"]));
     u.push(comp("ConstU8_0", "Const", &[], &[&ints[0]], &["0"]));
     u.push(comp("ConstBi0", "Const", &[], &[&bis[0]], &["0"]));
+    u.push(comp("ConstUnit", "Const", &[], &[&unit], &[]));
+    u.push(comp("ConstPair", "Const", &[], &[&comp("PairFF", "Struct", &["ut@Tuple"], &[&felt, &felt], &[]), &comp("ConstFelt5", "Const", &[], &[&felt], &["5"]), &comp("ConstFelt5", "Const", &[], &[&felt], &["5"])], &[]));
     for b in ["RangeCheck", "GasBuiltin", "Pedersen", "Bitwise", "System", "SegmentArena", "RangeCheck96", "AddMod", "MulMod", "BuiltinCosts", "u96", "qm31"].iter().take(if full { 12 } else { 4 }) {
         if *b == "u96" { u.push(comp("U96", "BoundedInt", &["0", "79228162514264337593543950335"], &[], &[])); } else { u.push(simple(b)); }
     }
